@@ -58,7 +58,7 @@ def do_noise(kind, arg):
         warnings.simplefilter("ignore")
         with contextlib.redirect_stdout(io.StringIO()):
             if kind == "trace-other":
-                us = units.all_units()
+                us = units.all_units(user=True)
                 u = us[arg % len(us)]
                 units.build_graph(u)  # throw-away context
             elif kind == "tmp-symbols":
@@ -99,7 +99,7 @@ def do_noise(kind, arg):
 def run_history(hist):
     """hist: list of ("gen", unit index) | ("noise", kind, arg). Returns violations."""
     ref = reference()
-    us = units.all_units()
+    us = units.all_units(user=True)
     out = []
     for step in hist:
         if step[0] == "noise":
@@ -153,7 +153,7 @@ def _hist_shard(task):
     global _REF
     _REF = ref
     sub = Ctx("C09", "quick", seed * 64 + shard, known)
-    us = units.all_units()
+    us = units.all_units(user=True)
 
     def body(h, part):
         gens = [s[1] % len(us) for s in h if s[0] == "gen"]
